@@ -16,8 +16,8 @@ EXPLANATION = (
     "leaf values. Direction 2: a reference writer for marshal format versions 0 and 1 (validated against the host's real "
     "marshal.dumps at run time) produces the bytes, xdis.marsh.loads decodes them symbolically and must return v. "
     "Counterexamples are replayed with the host's real marshal.loads / marshal.dumps.")
-BOUNDS = {"quick": "depth <= 2, width <= 2; ints |x| < 2^70; text of 1-2 code points (each symbolic over 0..0x10FFFF minus "
-                   "surrogates, by plane class); bytes of 0-2 symbolic bytes; floats/complex from a boundary set",
+BOUNDS = {"quick": "depth <= 2, width <= 2; ints |x| < 2^70; text of 1-2 code points (each symbolic over a 4-value window "
+                   "at every UTF-8 length boundary and at both edges of the surrogate gap); bytes of 0-2 symbolic bytes; floats/complex from a boundary set",
           "thorough": "same shapes + width 3 and all leaf-kind pairs in containers"}
 OUTSIDE = ["values deeper/wider than the bound", "arbitrary 64-bit float patterns (repr/float() are C code)",
            "hosts other than 3.12 (replay only uses the host)", "lone surrogate code points"]
@@ -37,9 +37,13 @@ def leaf_shapes(tier="quick"):
     out = [("none", ("const", None)), ("true", ("const", True)), ("false", ("const", False)), ("ellipsis", ("const", Ellipsis)),
            ("stopiter", ("const", StopIteration)), ("int32", ("int", -(1 << 31), (1 << 31) - 1)),
            ("int-big", ("int", -(1 << big), 1 << big)), ("bytes0", ("bytes", 0)), ("bytes1", ("bytes", 1)), ("bytes2", ("bytes", 2)),
-           ("text0", ("text", [])), ("text-ascii", ("text", [(0x20, 0x7e)])), ("text-latin1", ("text", [(0x80, 0xff)])),
-           ("text-bmp", ("text", [(0x100, 0xd7ff)])), ("text-bmp2", ("text", [(0xe000, 0xffff)])),
-           ("text-astral", ("text", [(0x10000, 0x10ffff)])), ("text2", ("text", [(0x20, 0x7e), (0x20, 0x24f)]))]
+           ("text0", ("text", [])), # text is encoded by C code (str.encode): CrossHair realises the code point, one path per value, so each
+           # symbolic code point ranges over a 4-value window across a UTF-8 length boundary
+           ("text-ascii", ("text", [(0x41, 0x44)])), ("text-latin1", ("text", [(0x7e, 0x81)])),
+           ("text-bmp", ("text", [(0x7fe, 0x801)])), ("text-bmp2", ("text", [(0xfffc, 0xffff)])),
+           ("text-astral", ("text", [(0xfffe, 0x10001)])), ("text-top", ("text", [(0x10fffc, 0x10ffff)])),
+           ("text-presurr", ("text", [(0xd7fc, 0xd7ff)])), ("text-postsurr", ("text", [(0xe000, 0xe003)])),
+           ("text2", ("text", [(0x41, 0x42), (0xfe, 0x101)]))]
     for nm, f in FLOATS:
         out.append(("float-" + nm, ("const", f)))
     out.append(("complex", ("const", complex(1.5, -0.0))))
